@@ -27,6 +27,8 @@ func init() {
 			{ID: "C13-R2", Title: "VirtualOS: mount/rel pairing via lookup on the method's own path", Floor: 10, Run: c13r2},
 			{ID: "C13-R3", Title: "path prefix tests respect component boundaries", Floor: 1, Run: c13r3},
 			{ID: "C13-R4", Title: "ResolvePath: clean, reject '..', join", Floor: 3, Run: c13r4},
+			{ID: "C13-R6", Title: "VirtualOS methods stay virtual (shared with C12-R6)", Floor: 20, Run: virtualOSStaysVirtual},
+			{ID: "C13-R7", Title: "the longest matching mount wins", Floor: 1, Run: longestMountWins},
 		},
 	})
 }
